@@ -87,7 +87,31 @@ def native_replay(rep):
     import os, sys
     sys.path.insert(0, os.path.dirname(os.path.dirname(os.path.abspath(__file__))))
     from native import c03_bounded
+    if "repair" in str(rep.get("obligation", "")):
+        # bookkeeping entry point: the allowed set and the tool table before and after, on the real engine
+        from operon_ai.organelles.mitochondria import Mitochondria
+        from operon_ai.core.types import Capability
+        caps = list(Capability)
+        for allowed in (None, set(), {caps[0]}, set(caps)):
+            for amount in (0, 0.25, 0.5, 1, 1.0, 2.5, 100):
+                m = Mitochondria(silent=True, allowed_capabilities=None if allowed is None else set(allowed))
+                m.register_function("t", lambda: 1, "d")
+                tools0 = dict(m.tools)
+                m._ros_accumulated = 0.7
+                m.repair(amount)
+                now = m.allowed_capabilities
+                if (now is None) != (allowed is None) or (now is not None and set(now) != allowed) or dict(m.tools) != tools0 or m._ros_accumulated < 0:
+                    return {"confirmed": True, "found_by": "repair on small configurations",
+                            "observed": f"Mitochondria(allowed_capabilities={allowed!r}).repair({amount!r}) -> allowed_capabilities={now!r}, "
+                                        f"tools={sorted(m.tools)}, ros={m._ros_accumulated!r}"}
     n, bad = c03_bounded.search()
     if bad is None:
         return {"confirmed": False, "observed": f"no unauthorised execution among {n} enumerated cases"}
     return {"confirmed": True, "observed": bad, "found_by": f"bounded enumeration ({n} cases)"}
+
+# damage repair is bookkeeping only: it leaves the tool table and the allowed-capability set (what the refusal clauses speak about) alone
+contract(T + ".repair", "C03", params={"amount": "real"}, ghost_params={"cap0": "enum:Capability"}, raises=[], modifies=["self._ros_accumulated"],
+         ensures={"damage-never-negative": "self._ros_accumulated >= 0",
+                  "allowed-set-and-tools-untouched": "(self.allowed_capabilities is None) == (old(self).allowed_capabilities is None) and "
+                                                     "implies(self.allowed_capabilities is not None, (cap0 in self.allowed_capabilities) == (cap0 in old(self).allowed_capabilities)) "
+                                                     "and len(self.tools) == len(old(self).tools)"})
